@@ -579,7 +579,7 @@ def gen_cases(kind, rng, thorough):
             for n in ((0, 2) if not thorough else (0, 1, 3)):
                 cs.append(dict(transport=kind, path=path, close_rpc=cr, pending=n, rpc_timeout=0.3))
     cs.append(dict(transport=kind, path='with_exc', close_rpc='ok_close', pending=0, rpc_timeout=0.3, body_exc='transport'))
-    cs.append(dict(transport=kind, path='close_session', close_rpc='ok_close', pending=0, rpc_timeout=1.0, stream=True))
+    cs.append(dict(transport=kind, path='close_session', close_rpc='ok_open', pending=0, rpc_timeout=1.0, stream=True))
     for h in ('silent', 'garbage_eof', 'eof'):
         cs.append(dict(transport=kind, path='failed_hello', hello=h))
     if kind == 'unix': cs.append(dict(transport=kind, path='failed_connect', fault='nolistener'))
@@ -679,7 +679,7 @@ def run(ctx):
         # quick tier: the SSH transport is represented by its three most distinctive paths
         for case in (dict(transport='ssh', path='failed_connect', fault='badpw'), dict(transport='ssh', path='close', pending=1),
                      dict(transport='ssh', path='close_session', close_rpc='ok_close', pending=0, rpc_timeout=0.3),
-                     dict(transport='ssh', path='close_session', close_rpc='ok_close', pending=0, rpc_timeout=1.0, stream=True)):
+                     dict(transport='ssh', path='close_session', close_rpc='ok_open', pending=0, rpc_timeout=1.0, stream=True)):
             res = check_case(ctx, case, files, ctx.model)
             ctx.count(case); ctx.hist('transport', 'ssh'); ctx.hist('path', case['path'])
             ctx.traces += 1 if res['model'] is not None and res['model'].get('accepted') else 0
